@@ -339,6 +339,48 @@ def promoted_variant(b, v):
     return None
 
 
+def ring_buffer_views_complete(ctx, F, rule='C07-R3'):
+    """A flow is a VecDeque, i.e. a ring buffer: `as_slices()` returns TWO slices and the first one holds all
+    elements only as long as the buffer has not wrapped. Code in actor::network that takes such a view has to use
+    both halves, otherwise part of a flow is invisible to it (iter_all, len, a search for the message to remove)
+    once a delivery and a send have wrapped the buffer."""
+    from taint import rv_operands
+    n = 0
+    for b in F.bodies.values():
+        if not (b.path.startswith('actor::network::') or b.path.startswith('<actor::network::')):
+            continue
+        n += 1
+        for c in b.calls_to('VecDeque::as_slices', 'VecDeque::as_mut_slices'):
+            ctx.touched(b)
+            used = set()
+            dl = c.dest['l']
+            ops = []
+            for bl in b.blocks:
+                for st in bl['stmts']:
+                    if st['k'] == 'assign':
+                        ops += list(rv_operands(st['rv']))
+                        if st['rv']['k'] in ('ref', 'discr'):
+                            ops.append({'k': 'copy', 'place': st['rv']['place']})
+                if bl['term']['k'] == 'call':
+                    ops += list(bl['term']['args'])
+            whole = False
+            for o in ops:
+                if o.get('k') in ('copy', 'move') and o['place']['l'] == dl:
+                    fs = [e for e in o['place']['p'] if isinstance(e, dict) and 'f' in e]
+                    if fs:
+                        used.add(fs[0]['f'])
+                    else:
+                        whole = True
+            ctx.check(whole or used >= {0, 1}, rule, 'flow-view-uses-both-halves', b,
+                      good='both slices of the ring buffer are used',
+                      bad='%s looks at only one of the two slices that VecDeque::%s returns: after the buffer has '
+                          'wrapped (a delivery followed by a send on the same flow) the messages in the other half are '
+                          'skipped, so iter_all / len / the search no longer agree with the contents of the flow' %
+                          (b.path, c.short.split('::')[-1]), span=c.span)
+    if n < 10:
+        raise AnchorMissing('functions of actor::network (found %d)' % n)
+
+
 def r4_actions(ctx, F):
     rule = 'C07-R4'
     b = F.body(ACTIONS)
@@ -361,6 +403,18 @@ def r4_actions(ctx, F):
         te = b.branch(c, True)
         if lhs_ok and pv == 'Yes' and te and all(b.edges_dominate(te, i) for (i, st) in sites['Drop']):
             ok = True
+    # ... or asked with a match: `matches!(self.lossy_network, LossyNetwork::Yes)`, also hoisted into a flag
+    if not ok:
+        from common import variant_flags
+        evid = [e for sw in b.switches if sw.kind == 'variant' and noref(sw.on).fields()[-1:] == ('.lossy_network',)
+                for e in sw.edges_for('Yes')]
+        for l, m in variant_flags(b, 'lossy_network').items():
+            yes_val = True if 'Yes' in m[True] and 'Yes' not in m[False] else False if 'Yes' in m[False] and 'Yes' not in m[True] else None
+            if yes_val is None:
+                continue
+            evid += [e for sw in b.switches if sw.kind == 'bool' and sw.on.kind == 'local' and sw.on.key == l
+                     for e in sw.edges_for(yes_val)]
+        ok = bool(evid) and all(b.edges_dominate(evid, i) for (i, st) in sites['Drop'])
     ctx.check(ok, rule, 'drop-only-when-lossy', b,
               good='Drop actions are offered only when lossy_network == LossyNetwork::Yes',
               bad='ActorModel::actions offers Drop steps without lossy_network == Yes: messages disappear '
@@ -438,6 +492,7 @@ def run(ctx):
         r2_effect_kinds(ctx, F)
     with ctx.rule('C07-R3', 'network'):
         r3_fifo(ctx, F)
+        ring_buffer_views_complete(ctx, F)
     with ctx.rule('C07-R4', 'actions'):
         r4_actions(ctx, F)
     ctx.doc('C07-R5', 'Network::new_*: every element of `envelopes` is handed to Network::send (or to a constructor that does)')
@@ -660,6 +715,31 @@ def r7_who_changes_the_network(ctx, F, rule='C07-R7'):
               bad='process_commands hands `&mut network` to %s' % sorted(set(c.short for c in pct if not c.is_('Network::send'))))
 
 
+EFFECT_RE = re.compile(r'(Hash|BTree)(able\w+)?(Set|Map)(::<.*>)?::(insert|entry|extend|get_mut|remove)$|'
+                       r'Entry(::<.*>)?::(or_insert|or_insert_with|or_default|and_modify|insert_entry)$|'
+                       r'VecDeque(::<.*>)?::(push_back|push_front|extend|insert)$|Extend::extend$|Iterator::collect$')
+
+
+def effect_signature(b, blocks):
+    """what a region does to a container, as a multiset of operation kinds: entry / or-insert (however the default
+    is spelled) / insert / push_back ..., plus 'add-one' for `+= 1` on a stored count"""
+    sig = Counter()
+    for c in b.calls:
+        if c.bb not in blocks:
+            continue
+        m = EFFECT_RE.search(c.short)
+        if not m:
+            continue
+        name = c.short.split('::')[-1]
+        if name in ('or_insert', 'or_insert_with', 'or_default'):
+            name = 'or_insert*'
+        sig[name] += 1
+    for (i, si, st) in b.assigns(lambda st: st['rv']['k'] == 'bin' and st['rv']['op'] in ('Add', 'AddWithOverflow', 'AddUnchecked')):
+        if i in blocks and st['rv']['b'].get('k') == 'const' and st['rv']['b'].get('val') == 1:
+            sig['add-one'] += 1
+    return sig
+
+
 def r5_initial_contents(ctx, F, rule='C07-R5'):
     """Network::new_*: every initially present envelope enters the network the way a sent one does - each
     element of `envelopes` is handed to Network::send (or the constructor delegates to one that does), so an
@@ -708,6 +788,26 @@ def r5_initial_contents(ctx, F, rule='C07-R5'):
             elif re.search(r'Network::<Msg>::new_\w+$', c.callee) and c.callee != b0.path and c.args:
                 if any(('arg', 1) in origins(b, a) for a in c.args if a.get('k') in ('copy', 'move')):
                     ok, how = True, 'delegates to %s' % c.callee.split('::')[-1]
+        if not ok and len(built) == 1:
+            # the constructor may do by hand what the `send` arm of the variant it builds does (sibling agreement):
+            # a loop over `envelopes` whose body applies the same container operations as that arm, none skippable
+            variant = next(iter(built))
+            sb = F.norm(F.body('actor::network::Network::<Msg>::send'))
+            ssw = self_variant_switch(sb)
+            sedges = ssw.edges_for(variant)
+            want = effect_signature(sb, sb.reach([e[1] for e in sedges])) if sedges else None
+            for head in [h for h in b.calls_to('Iterator::next') if b.in_cycle(h.bb)]:
+                if noref(b.trace(b.val(head.args[0]), ('IntoIterator::into_iter',))) != V('arg', 1):
+                    continue
+                some = b.branch(head, 'Some')
+                body = b.reach([e[1] for e in some], cut_blocks=[head.bb]) if some else set()
+                body.discard(head.bb)
+                got = effect_signature(b, body)
+                eff = [c for c in b.calls if c.bb in body and EFFECT_RE.search(c.short)]
+                unskippable = bool(eff) and all(head.bb not in b.reach([e[1] for e in some], cut_blocks=[c.bb]) for c in eff)
+                if want and got == want and unskippable:
+                    ok, how = True, 'every element of `envelopes` gets the operations of the %s arm of send (%s)' % (
+                        variant, ', '.join(sorted(want)))
         ctx.check(ok, rule, 'initial-envelopes-are-sent@%s' % b0.path.split('::')[-1], b0,
                   good='%s: %s' % (b0.path.split('::')[-1], how),
                   bad='%s does not hand every element of `envelopes` to Network::send: initially present messages '
